@@ -73,6 +73,14 @@ func (w *world) taskDigest(t *wTask) string {
 }
 
 func runC04(e *core.Env) error {
+	{
+		// integrations of one source share one caching client: each gets exactly its own rows whatever the
+		// others fetched before (deterministic sequences, shared with C11-C14)
+		chain := transferChain(5, 3+e.Seed%5)
+		node := simnode.NewNode(chain)
+		e2eSharedClient(e, node, chain)
+		node.Close()
+	}
 	r := e.Rand
 	nHist := e.N(30, 400)
 	for h := 0; h < nHist && !e.OverBudget(); h++ {
